@@ -902,9 +902,9 @@ func NewMPReachNLRIDecodeFn[T any](fn func(t T, afi uint16, safi uint8, nh, nlri
 		}
 		afi := binary.BigEndian.Uint16(b)
 		safi := b[2]
-		nhLen := b[3]
+		nhLen := int(b[3])
 		b = b[4:]
-		if len(b) < int(nhLen)+1 { // reserved byte
+		if len(b) < nhLen+1 { // reserved byte
 			return errors.Join(me, mpLenErr())
 		}
 		return errors.Join(me, fn(t, afi, safi, b[:nhLen], b[nhLen+1:]))
